@@ -17,6 +17,7 @@ package static
 // runtime manager and records versions, issued statuses and readyz.
 
 import (
+	"bytes"
 	"context"
 	"errors"
 	"fmt"
@@ -760,22 +761,107 @@ const (
 
 var c12Err = errors.New("verif: scripted failure")
 
-type c12Fault struct{ write, reload, getUps, update bool }
+type c12Fault struct {
+	write, reload, getUps, update bool
+	// pick selects the file operation that fails when write is set
+	pick int
+}
 
 type c12Calls struct {
 	written     *int
 	writeErr    bool
 	writeCalled bool
-	reloaded    *int
-	reloadErr   bool
-	reloadCall  bool
-	plusCalled  bool
-	plusErr     bool
+	// writeSaid: ReplaceFiles returned nil
+	writeSaid  bool
+	reloaded   *int
+	reloadErr  bool
+	reloadCall bool
+	plusCalled bool
+	plusErr    bool
 }
 
-type c12FileMgr struct{ w *c12World }
+// c12FileMgr is the REAL file manager (file.ManagerImpl) over a file system rooted in a scratch directory whose operations fail
+// on request. What the record says about the write (writeErr) is the truth read back from the directory - the files of the call,
+// whole, and nothing else - not what the manager answered.
+type c12FileMgr struct {
+	w    *c12World
+	os   *c12OS
+	real *file.ManagerImpl
+	prev []string
+}
+
+// c12OS implements file.OSFileManager below base; operation failOp on failPath fails.
+type c12OS struct {
+	base             string
+	failOp, failPath string
+}
+
+func (o *c12OS) fails(op, path string) bool { return o.failOp == op && o.failPath == path }
+func (o *c12OS) rel(f *os.File) string      { return strings.TrimPrefix(f.Name(), o.base) }
+func (o *c12OS) ReadDir(dirname string) ([]fs.DirEntry, error) {
+	return os.ReadDir(filepath.Join(o.base, dirname))
+}
+
+func (o *c12OS) Remove(name string) error {
+	if o.fails("remove", name) {
+		return c12Err
+	}
+	return os.Remove(filepath.Join(o.base, name))
+}
+
+func (o *c12OS) Create(name string) (*os.File, error) {
+	if o.fails("create", name) {
+		return nil, c12Err
+	}
+	if err := os.MkdirAll(filepath.Dir(filepath.Join(o.base, name)), 0o755); err != nil {
+		return nil, err
+	}
+	return os.Create(filepath.Join(o.base, name))
+}
+
+func (o *c12OS) Chmod(f *os.File, mode os.FileMode) error {
+	if o.fails("chmod", o.rel(f)) {
+		return c12Err
+	}
+	return f.Chmod(mode)
+}
+
+func (o *c12OS) Write(f *os.File, contents []byte) error {
+	if o.fails("write", o.rel(f)) {
+		// a short write: part of the content arrives
+		_, _ = f.Write(contents[:len(contents)/2])
+		return c12Err
+	}
+	_, err := f.Write(contents)
+	return err
+}
+func (o *c12OS) Open(name string) (*os.File, error)      { return os.Open(filepath.Join(o.base, name)) }
+func (o *c12OS) Copy(dst io.Writer, src io.Reader) error { _, err := io.Copy(dst, src); return err }
 
 var c12VerRe = regexp.MustCompile(`return 200 (-?\d+);`)
+
+// dirHolds: the scratch directory holds exactly the given files with exactly their contents.
+func (o *c12OS) dirHolds(files []file.File) bool {
+	want := map[string][]byte{}
+	for _, fl := range files {
+		want[filepath.Join(o.base, fl.Path)] = fl.Content
+	}
+	ok := true
+	seen := 0
+	_ = filepath.WalkDir(o.base, func(p string, d fs.DirEntry, err error) error {
+		if err != nil || d.IsDir() {
+			return nil
+		}
+		content, isWanted := want[p]
+		got, rerr := os.ReadFile(p)
+		if !isWanted || rerr != nil || !bytes.Equal(got, content) {
+			ok = false
+		}
+		seen++
+		return nil
+	})
+	return ok && seen == len(want)
+}
 
 func (f *c12FileMgr) ReplaceFiles(files []file.File) error {
 	c := &f.w.calls
@@ -788,11 +874,28 @@ func (f *c12FileMgr) ReplaceFiles(files []file.File) error {
 			}
 		}
 	}
-	if f.w.fault.write {
-		c.writeErr = true
-		return c12Err
+	f.os.failOp, f.os.failPath = "", ""
+	if f.w.fault.write && len(files) > 0 {
+		pick := f.w.fault.pick
+		ops := []string{"create", "chmod", "write", "write"}
+		if len(f.prev) > 0 {
+			ops = append(ops, "remove")
+		}
+		f.os.failOp = ops[pick%len(ops)]
+		if f.os.failOp == "remove" {
+			f.os.failPath = f.prev[(pick/8)%len(f.prev)]
+		} else {
+			f.os.failPath = files[(pick/8)%len(files)].Path
+		}
 	}
-	return nil
+	err := f.real.ReplaceFiles(files)
+	f.prev = f.prev[:0]
+	for _, fl := range files {
+		f.prev = append(f.prev, fl.Path)
+	}
+	c.writeErr = !f.os.dirHolds(files)
+	c.writeSaid = err == nil
+	return err
 }
 
 type c12Runtime struct{ w *c12World }
@@ -960,6 +1063,7 @@ type c12World struct {
 	change    state.ChangeType
 	processed bool
 	groups    []c12Group
+	fm        *c12FileMgr
 }
 
 func c12CRD(name string) *metav1.PartialObjectMetadata {
@@ -974,6 +1078,12 @@ func c12CRD(name string) *metav1.PartialObjectMetadata {
 
 func c12NewWorld(plus bool) *c12World {
 	w := &c12World{plus: plus}
+	dir, err := os.MkdirTemp("", "c12fs")
+	if err != nil {
+		panic(err)
+	}
+	w.fm = &c12FileMgr{w: w, os: &c12OS{base: dir}}
+	w.fm.real = file.NewManagerImpl(logr.Discard(), w.fm.os)
 	w.k8s = fake.NewClientBuilder().WithScheme(scheme).
 		WithIndex(&discoveryV1.EndpointSlice{}, index.KubernetesServiceNameIndexField, index.ServiceNameIndexFunc).
 		Build()
@@ -995,7 +1105,7 @@ func c12NewWorld(plus bool) *c12World {
 		PlusSecrets:    map[types.NamespacedName][]graph.PlusSecretFile{},
 	})}
 	w.h = newEventHandlerImpl(eventHandlerConfig{
-		nginxFileMgr:     &c12FileMgr{w: w},
+		nginxFileMgr:     w.fm,
 		metricsCollector: collectors.NewControllerNoopCollector(),
 		nginxRuntimeMgr:  &c12Runtime{w: w},
 		statusUpdater:    &c12Updater{w: w},
@@ -1196,6 +1306,7 @@ func c12ChangeTerm(c state.ChangeType) string {
 // c12RunHandler plays the plan against a fresh handler and fills in the observations.
 func c12RunHandler(r *vu.Rng, plus bool, steps []*c12Step) {
 	w := c12NewWorld(plus)
+	defer os.RemoveAll(w.fm.os.base)
 	gen := int64(1)
 	port := int32(80)
 	broken := true
@@ -1331,8 +1442,9 @@ func c12HandlerHuman(plus bool, steps []*c12Step) map[string]any {
 			"scripted_faults": map[string]bool{"ReplaceFiles": st.fault.write, "Reload": st.fault.reload,
 				"GetUpstreams": st.fault.getUps, "UpdateServers": st.fault.update},
 			"observed": map[string]any{
-				"change_type": c12ChangeTerm(st.change), "ReplaceFiles_called": st.calls.writeCalled, "ReplaceFiles_failed": st.calls.writeErr,
-				"version_in_written_files": st.calls.written, "Reload_called": st.calls.reloadCall, "Reload_failed": st.calls.reloadErr,
+				"change_type": c12ChangeTerm(st.change), "ReplaceFiles_called": st.calls.writeCalled, "directory_is_not_the_file_set_after_ReplaceFiles": st.calls.writeErr,
+				"ReplaceFiles_returned_nil": st.calls.writeSaid,
+				"version_in_written_files":  st.calls.written, "Reload_called": st.calls.reloadCall, "Reload_failed": st.calls.reloadErr,
 				"version_given_to_Reload": st.calls.reloaded, "plus_api_called": st.calls.plusCalled, "plus_api_failed": st.calls.plusErr,
 				"latest_configuration_version": st.conf, "service_event_statuses_issued": st.svcIssued, "service_event_statuses": stats(st.svcStats),
 				"final_statuses_issued": st.finIssued, "final_statuses": stats(st.finStats), "readyz_ok": st.ready,
@@ -1377,6 +1489,7 @@ func c12GenPlan(r *vu.Rng, n int, plus bool) []*c12Step {
 				}
 			}
 		}
+		st.fault.pick = r.Intn(1 << 16)
 		st.svcEvent = r.Chance(1, 5)
 		steps = append(steps, st)
 	}
